@@ -247,6 +247,19 @@ func (e *EvalBinaryNode) EvalInt(scope *Scope, executionState ExecutionState) (i
 }
 
 func (e *EvalBinaryNode) eval(scope *Scope, executionState ExecutionState) (resultContainer, *ErrSide) {
+	if scope != nil && (e.leftEvaluator.IsDynamic() || e.rightEvaluator.IsDynamic()) {
+		// Specialise on the current operand types before the operands are evaluated.
+		// Relying on the type guard retry below alone would evaluate the operands twice,
+		// advancing stateful functions (count, sigma, ...) twice for a single point, and
+		// a node that once saw mismatching types would keep a nil evaluationFn forever.
+		if leftType, err := e.leftEvaluator.Type(scope); err == nil {
+			if rightType, err := e.rightEvaluator.Type(scope); err == nil {
+				e.leftType = leftType
+				e.rightType = rightType
+				e.evaluationFn = e.lookupEvaluationFn()
+			}
+		}
+	}
 	if e.evaluationFn == nil {
 		err := e.determineError(scope, executionState)
 		return boolFalseResultContainer, &ErrSide{error: err}
